@@ -61,7 +61,8 @@ Print Assumptions C02_check_agrees.
    tree (shape, colours, node identities), nothing outside the nodes of the argument is touched, no NULL is dereferenced
    whenever the model does not Crash.  So the theorems above speak about the code as it is now for these functions;
    put_obj/remove_obj/remove_min, which call them, stay tied by the lockstep runs. *)
-From QV.Tree Require Import TreeHeap TreeHeapProofs TreeHeapMrl TreeHeapFix TreeHeapRmin.
+From Coq Require Import ZArith.
+From QV.Tree Require Import TreeHeap TreeHeapProofs TreeHeapMrl TreeHeapFix TreeHeapRmin TreeHeapPut.
 From QV.Gen Require Import TreeOps.
 Theorem C02_c_helpers_refine :
   refines c_flip_color flip /\ refines c_rotate_left rotl /\ refines c_rotate_right rotr /\
@@ -86,6 +87,15 @@ Theorem C02_c_remove_min_refines : forall fuel h p (t t' : tree positive), rep h
   exists p' h' m, c_remove_min fuel p h = Ok (p', h') /\ rep h' p' t' /\ elements t = m :: elements t' /\ h' m = None /\
     frame (elements t) h h'.
 Proof. exact c_rmin_refines. Qed.
+(* put_obj(): the translated recursion refines the model's put, for every comparator answer function kc (kc i = what
+   tbl->compare returns for the searched key at node i; zcmp = its sign), every fuel, every heap in which the new node object n
+   (red, no children, as new_obj makes it) is distinct from the nodes of the tree: same result tree, nothing but the tree's
+   nodes and n touched.  An existing key keeps its node object (repl x n = x); its value buffer is payload, outside this heap. *)
+Theorem C02_c_put_obj_refines : forall (kc : positive -> Z) fuel h p n (t t' : tree positive),
+  rep h p t -> h n = Some (mkcell true None None) -> NoDup (n :: elements t) ->
+  put (fun (_ x : positive) => zcmp (kc x)) (fun (x _ : positive) => x) fuel t n = Ok t' ->
+  exists p' h', c_put_obj kc fuel p (Some n) h = Ok (p', h') /\ rep h' p' t' /\ frame (n :: elements t) h h' /\ NoDup (elements t').
+Proof. exact c_put_refines_ex. Qed.
 (* non-vacuity: a three-node heap with a red right child; fix() rotates it to the left *)
 Example C02_c_helpers_nonvacuous :
   let h : heap := fun j => match j with 1%positive => Some (mkcell false (Some 2%positive) (Some 3%positive))
@@ -100,3 +110,4 @@ Print Assumptions C02_c_helpers_refine.
 Print Assumptions C02_c_flip_same_pointer.
 Print Assumptions C02_c_find_min_max.
 Print Assumptions C02_c_remove_min_refines.
+Print Assumptions C02_c_put_obj_refines.
